@@ -6,8 +6,8 @@ M: TLC checks Ensemble.tla (constructors, append/extend, collective transformati
    store) for Rectangular, WriteThrough, SourceUntouched, CopyUntouched, StackIsRowwise, EachOnceInOrder,
    YieldedViewsStay, HeldWriteThrough, TransformsOnlyCoords, DumpableAndStorable ...; eleven named deviations
    must each be caught.
-A: every (state, action) pair of bounded slices of the model (grow, iterate, kept yielded conformers,
-   view+transform, copy+source, io) is
+A: every (state, action) pair of bounded slices of the model (grow, iterate, kept yielded conformers across
+   growth, held views x append/extend x transformation/assignment ("live"), view+transform, copy+source, io) is
    executed on real ConformerEnsemble / Conformer objects; after every call the public arrays, the arrays of
    the source ensemble of the last copy construction, every conformer ever yielded by a live iteration or
    collected by list(ens) (re-read after the iterator advanced / ended, and written through), every row
@@ -40,17 +40,18 @@ def known_for(sig):
 INV = ("TypeOK", "Rectangular", "EachOnceInOrder", "YieldedViewsStay")
 PROPS = ("StopOnlyAtEnd", "YieldsTheRow", "WriteThrough", "TransformsOnlyCoords", "TranslateIsUniform", "GrowKeepsOld",
          "AppendAddsTheRow", "CopyIsFaithful", "FailedOpIsNoOp", "ReadsChangeNothing", "DumpableAndStorable",
-         "SingleTransformsSucceed", "StackIsRowwise", "SourceUntouched", "CopyUntouched", "HeldWriteThrough")
+         "SingleTransformsSucceed", "StackIsRowwise", "SourceUntouched", "CopyUntouched", "HeldWriteThrough", "AssignTouchesOneArray")
 ACTIONS = {
     "grow": ("NewAtoms", "NewMol", "NewList", "AppendC", "ExtendList", "ExtendEns", "ExtendOther"),
     "iter": ("StartIter", "NextIt", "Collect", "HeldWrite", "HeldWriteQ"),
-    "view": ("VWriteC", "VWriteQ", "VSetAtom", "VTranslate", "SetW"),
+    "view": ("VWriteC", "VWriteQ", "VSetAtom", "VTranslate", "SetW", "AssignC", "AssignQ", "AssignW"),
+    "append": ("AppendC", "ExtendList"),
     "xform": ("Scale", "Invert", "Translate", "Rotate", "CenterAt", "RotateStack", "TranslateStack"),
     "copy": ("NewCopy", "SrcWriteC", "SrcWriteQ", "SrcSetW", "SrcTranslate"),
     "dump": ("Dump", "Ser"),
     "io": ("CDump", "CSer", "Slice"),
 }
-OPS = {"OpsAll": ("grow", "iter", "view", "xform", "dump", "io", "copy"), "OpsNoCopy": ("grow", "iter", "view", "xform", "dump", "io"), "OpsMix": ("grow", "iter", "view", "xform", "dump", "copy"), "OpsCopy": ("copy", "view", "xform"), "OpsCopyV": ("copy", "view"), "OpsCopyX": ("copy", "xform"), "OpsGrow": ("grow", "dump"), "OpsIter": ("iter", "dump"),
+OPS = {"OpsAll": ("grow", "iter", "view", "xform", "dump", "io", "copy"), "OpsNoCopy": ("grow", "iter", "view", "xform", "dump", "io"), "OpsMix": ("grow", "iter", "view", "xform", "dump", "copy"), "OpsLive": ("append", "view", "xform"), "OpsCopy": ("copy", "view", "xform"), "OpsCopyV": ("copy", "view"), "OpsCopyX": ("copy", "xform"), "OpsGrow": ("grow", "dump"), "OpsIter": ("iter", "dump"),
        "OpsView": ("view", "xform", "dump"), "OpsIO": ("grow", "io")}
 ITERS = {"It1": ("i1",), "It2": ("i1", "i2"), "It3": ("i1", "i2", "i3")}
 CUNIT = 250000          # one coordinate unit of MCEnsemble.tla in micro-Angstrom
@@ -68,6 +69,7 @@ DEVIATIONS = {
     "DevShare": ("OpsCopy", "SourceUntouched"),
     "DevStack": ("OpsView", "Rectangular"),
     "DevYield": ("OpsIter", "YieldedViewsStay"),
+    "DevOrphan": ("OpsIter", "YieldedViewsStay"),
 }
 
 
@@ -98,8 +100,10 @@ def slices(tier):
     """(name, cfg kwargs) of the graphs that are replayed on the real code"""
     if tier == "thorough":
         return [("grow", dict(ops="OpsGrow", pool="Pool3x", maxc=3)),
-                ("iter", dict(ops="OpsIter", pool="Pool3", it="It3", maxc=3, maxt=0)),
-                ("held", dict(ops="OpsIter", pool="Pool2", it="It2", maxc=3, maxt=1)),
+                ("iter", dict(ops="OpsIter", pool="Pool2", it="It3", maxc=3, maxt=0)),
+                ("iter3", dict(ops="OpsIter", pool="Pool3", it="It2", maxc=3, maxt=0)),
+                ("held", dict(ops="OpsIter", pool="Pool2", it="It1", maxc=3, maxt=2)),
+                ("live", dict(ops="OpsLive", pool="Pool2", maxc=3, maxt=2)),
                 ("view2", dict(ops="OpsView", pool="Pool2", maxc=2, maxt=2, rots="Rots2", vecs="Vecs2", facs="Facs2", ws="Ws2")),
                 ("view3", dict(ops="OpsView", pool="Pool2", maxc=3, maxt=2)),
                 ("view1", dict(ops="OpsView", pool="Pool2", maxc=1, maxt=3, rots="Rots2", vecs="Vecs2", facs="Facs2", ws="Ws2")),
@@ -107,10 +111,10 @@ def slices(tier):
                 ("io", dict(ops="OpsIO", pool="Pool2x", maxc=3))]
     return [("grow", dict(ops="OpsGrow", pool="Pool2x", maxc=3)),
             ("iter", dict(ops="OpsIter", pool="Pool2", it="It2", maxc=3, maxt=0)),
-            ("held", dict(ops="OpsIter", pool="Pool2", it="It2", maxc=2, maxt=1)),
+            ("held", dict(ops="OpsIter", pool="Pool2", it="It1", maxc=3, maxt=1)),
+            ("live", dict(ops="OpsLive", pool="Pool2", maxc=3, maxt=1)),
             ("view", dict(ops="OpsView", pool="Pool2", maxc=2, maxt=2)),
             ("copy", dict(ops="OpsCopy", pool="Pool2", maxc=1, maxt=2)),
-            ("copyx", dict(ops="OpsCopyX", pool="Pool2", maxc=2, maxt=2)),
             ("io", dict(ops="OpsIO", pool="Pool2x", maxc=2))]
 
 
@@ -118,7 +122,7 @@ def mixed(tier):
     """models with the action groups together (invariants only, not replayed)"""
     if tier == "thorough":
         return [dict(ops="OpsMix", pool="Pool2", it="It1", maxc=2, maxt=2), dict(ops="OpsNoCopy", pool="Pool2", it="It2", maxc=2, maxt=1)]
-    return [dict(ops="OpsNoCopy", pool="Pool2x", it="It1", maxc=2, maxt=1)]      # the copy group has its own slice models
+    return [dict(ops="OpsNoCopy", pool="Pool2", it="It1", maxc=2, maxt=1)]      # the copy group has its own slice models
 
 
 # ----------------------------------------------------------------------------------------------
@@ -175,9 +179,10 @@ def part_replay(tier, seed, ev, rep, workers):
     free = probe_free()
     ev.set(free_behaviours_shown_by_the_code=list(free))
     sl = [(name, dict(kw, free=free)) for name, kw in slices(tier)]
-    with ThreadPoolExecutor(6) as ex:
-        graphs = list(ex.map(lambda s: emit_graph(ev, "MCEnsemble", cfg(**s[1]), role=f"edges of slice {s[0]}", tag="c14emit",
-                                                  timeout=1500), sl))
+    ex = ThreadPoolExecutor(6)
+    # graphs arrive in slice order; a slice is replayed while TLC is still emitting the later ones
+    graphs = ex.map(lambda s: emit_graph(ev, "MCEnsemble", cfg(**s[1]), role=f"edges of slice {s[0]}", tag="c14emit", timeout=1500), sl)
+    ex.shutdown(wait=False)
     for (name, kw), edges in zip(sl, graphs):
         g = replay.Graph(edges)
         del edges
@@ -277,9 +282,27 @@ def run(tier, seed, replay_path):
     if replay_path:
         return do_replay(replay_path)
     workers = 4
-    part_model(tier, ev, workers)
-    part_replay(tier, seed, ev, rep, workers)
-    part_traces(tier, seed, ev, rep)
+    # the three parts are independent: TLC on the model and the trace validation (JVMs) run while this thread replays
+    with ThreadPoolExecutor(2) as ex:
+        walls = {}
+
+        def timed(name, fn, *a):
+            t0 = time.time()
+            try:
+                return fn(*a)
+            finally:
+                walls[name] = round(time.time() - t0, 1)
+        fm = ex.submit(timed, "model", part_model, tier, ev, workers)
+        ft = ex.submit(timed, "traces", part_traces, tier, seed, ev, rep)
+        try:
+            timed("replay", part_replay, tier, seed, ev, rep, workers)
+        finally:
+            errs = [f.exception() for f in (fm, ft)]
+        for e in errs:
+            if e is not None:
+                raise e
+        ev.set(part_wall_s=walls)
+        rep.note(f"wall per part (run concurrently): {walls}")
     ev.set(rule="A: one case = one (model state, action) pair of a bounded slice graph executed on real objects, evaluations = real "
                 "calls, non-trivial = distinct pairs; B: one case = one recorded history (non-trivial), evaluations = its events, "
                 "each validated by TLC as a step of Ensemble.tla with the observed post-state",
@@ -289,8 +312,9 @@ def run(tier, seed, replay_path):
         "and larger ensembles only sampled (direction B)",
         "left free: charge row of an appended geometry (own or zero), weights of rows taken from another ensemble (its or 1), "
         "extend([]) may raise, an ensemble without atoms may refuse or adopt its first conformer, exception classes",
-        "iterators and held conformers are not used across a change of the number of conformers; conformers yielded by an "
-        "iteration are kept and re-read until that iterator is restarted or the number of conformers changes",
+        "a RUNNING iterator is abandoned when the number of conformers changes (its behaviour there is left free); every conformer "
+        "object already obtained - from ens[i], a slice, next() or list(ens) - is kept for the life of the ensemble, across "
+        "append/extend, transformations and whole-array assignments, re-read after every step and used for 7 of 10 writes",
         "only the source of the LAST copy construction is kept and observed; a stack of exactly one matrix / vector applied to "
         "several conformers (numpy broadcasting of a single transformation) is not generated",
         "rotations are signed permutation matrices, scale factors integers (exact integer arithmetic in the specification); "
